@@ -497,11 +497,16 @@ def wide_lp(r):
 
 
 def rt_lp(r, big=False):
+    wide = None
     if r.random() < .15:
-        lp = wide_lp(r)
-        if usable_for_roundtrip(lp):
-            return lp
+        wide = wide_lp(r)
+        if not usable_for_roundtrip(wide):
+            wide = None
     for _ in range(50):
+        if wide is not None:
+            lp = wide
+            big = False
+            break
         lp = lpfam.family(r.choice(["boxed", "fixedcols", "random", "feasible", "special", "degenerate"]), r)
         if usable_for_roundtrip(lp) and all(F(v) >= 0 for v in lp["range"]):
             break
